@@ -20,7 +20,10 @@ Check(t) ==
     /\ Report("C08_PublishInRangeWholeSecond", C08_PublishInRangeWholeSecond(now, r), r.publish)
     /\ Report("C08_TsbdRange", C08_TsbdRange(now, r), r.tsbd)
     /\ (t.has_fta = 1 => Report("C08_FirstAvailable", C08_FirstAvailable(now, r), r.fta))
-    /\ Report("C08_PublishQuantised", C08_PublishQuantised(now, r), [publish |-> r.publish, mup |-> r.mup])
+    \* a period that is not a whole number of seconds (mup_whole = 0; r.mup then holds its integer part) is judged on the
+    \* exact quotient (publishTime - availabilityStartTime) / p, computed by the projection with rationals (k_whole)
+    /\ Report("C08_PublishQuantised", IF r.mup_whole = 1 THEN C08_PublishQuantised(now, r) ELSE r.k_whole = 1,
+              [publish |-> r.publish, mup |-> r.mup, whole |-> r.mup_whole])
     /\ Report("C08_SymbolicAtLeastOneMinuteOld", C08_SymbolicAtLeastOneMinuteOld(now, t.start, r), r.ast)
     /\ Report("C08_NowFollowsAt60", C08_NowFollowsAt60(now, t.start, r), r.ast)
     /\ (t.layer = "pure" =>
